@@ -549,6 +549,19 @@ def impl(stream, line):
     w = line.split(" ")
     op = w[0]
     if op in ("p", "pw"):
+        import zlib as _zlib
+        if _zlib.crc32(line.encode()) % 2:
+            # the message returned by an earlier parse of the SAME bytes belongs to its caller: writing into its maps (the library's
+            # own transform() does, for a request it is handed) must not show in a later parse
+            try:
+                m0 = c2.parse_raw_http(C.unhx(w[1]))
+                for d in (getattr(m0, "params", None), getattr(m0, "headers", None)):
+                    if isinstance(d, dict):
+                        d[b"\x00written-by-the-caller"] = b"x"
+                        for k in list(d)[:1]:
+                            d[k] = b"changed"
+            except Exception:  # noqa: BLE001
+                pass
         return show_msg(c2.parse_raw_http(C.unhx(w[1])))
     if op == "us":
         r = urllib.parse.urlsplit(C.unhx(w[1]))
